@@ -21,17 +21,31 @@ inner    every application recipe of recipes.build_app, plus
              a view (wrapped by request_response after the decorator layers)
          {"app": "echo", "order": [...]}                            the echo view of recipes.py
 
+file_ops {"size": n, "ops": [...], "final": "op" | "empty-body"}     key of an xraw application (then "chunks" is []) or of an xview
+         (then the view returns a response object of a foreign class built on baize's Response): the body comes from a file
+         of n position-identifying bytes that the application opens itself.  ops, in order:
+             {"seek": k} / {"read": k}            the application positions / reads the descriptor itself (a preamble)
+             {"body": bytes}                      an ordinary http.response.body chunk
+             {"zc": {"offset": o?, "count": c?}}  if the scope offers `http.response.zerocopysend`: that event with the open
+                                                  descriptor (offset absent = from the descriptor's current position, count
+                                                  absent = to the end of the file); otherwise, and on WSGI, the same bytes as
+                                                  an ordinary chunk
+         the last message carries more_body False ("op") or an empty final body message follows ("empty-body").
+         reference_body() is the reference for what such an application sends (pure Python over the file's content).
+
 Nothing here decides a verdict; the oracle is in checks/C20.py.
 """
 from __future__ import annotations
 
-from typing import Any, Callable, Dict, List
+import os
+from typing import Any, Callable, Dict, List, Optional, Tuple
 
 import baize.asgi as A
 import baize.wsgi as W
 from baize.exceptions import HTTPException
 
-from . import recipes
+from . import recipes, tmpfiles
+from . import core as _core
 from .core import HarnessError
 from .recipes import Built, ProducerError
 
@@ -53,6 +67,130 @@ def expand(chunks: List[Any]) -> List[bytes]:
         else:
             out.append(bytes(c))
     return out
+
+
+# ------------------------------------------------------------------------------------------
+# applications that use the zero-copy send extension themselves
+
+ZEROCOPY = "http.response.zerocopysend"
+_ZC_PATHS: Dict[int, str] = {}
+
+
+def zc_content(n: int) -> bytes:
+    """n bytes in which every 8-byte block names its own offset."""
+    return b"".join(b"%07d|" % i for i in range(0, n + 8, 8))[:n]
+
+
+def zc_path(n: int) -> str:
+    if n not in _ZC_PATHS:
+        path = os.path.join(tmpfiles.workdir("verif_c20_zc_"), f"body{n}.bin")
+        with open(path, "wb") as fh:
+            fh.write(zc_content(n))
+        _ZC_PATHS[n] = path
+    return _ZC_PATHS[n]
+
+
+_core.AFTER_FORK.append(_ZC_PATHS.clear)
+
+
+def file_ops_plan(spec: Dict[str, Any]) -> List[Tuple[str, Any, bytes]]:
+    """Reference semantics of a file_ops recipe: [(kind, op, bytes this message stands for)] for the message ops.
+    A zerocopysend without offset starts at the descriptor's position and moves it (like sendfile(2) without offset);
+    where one with offset leaves the position is the server's business, so recipes never rely on it."""
+    size = int(spec["size"])
+    content = zc_content(size)
+    pos = 0
+    pos_known = True
+    out: List[Tuple[str, Any, bytes]] = []
+    for op in spec["ops"]:
+        if "seek" in op:
+            pos, pos_known = min(size, int(op["seek"])), True
+        elif "read" in op:
+            if not pos_known:
+                raise HarnessError(f"file_ops {spec!r}: position unknown before {op!r}")
+            pos = min(size, pos + int(op["read"]))
+        elif "body" in op:
+            out.append(("body", op, bytes(op["body"])))
+        elif "zc" in op:
+            z = op["zc"]
+            if z.get("offset") is not None:
+                start = int(z["offset"])
+                if start > size:
+                    raise HarnessError(f"file_ops {spec!r}: offset outside the file")
+                pos_known = False
+            else:
+                if not pos_known:
+                    raise HarnessError(f"file_ops {spec!r}: position unknown before {op!r}")
+                start = pos
+            end = size if z.get("count") is None else min(size, start + int(z["count"]))
+            out.append(("zc", op, content[start:end]))
+            if z.get("offset") is None:
+                pos = end
+        else:
+            raise HarnessError(f"file op {op!r}")
+    return out
+
+
+def reference_body(inner: Dict[str, Any]) -> bytes:
+    if inner.get("file_ops"):
+        return b"".join(data for _, _, data in file_ops_plan(inner["file_ops"]))
+    return b"".join(expand(inner.get("chunks", [])))
+
+
+async def _send_file_ops(spec: Dict[str, Any], scope: Any, send: Any) -> None:
+    """The body part of an ASGI application described by a file_ops recipe."""
+    plan = file_ops_plan(spec)
+    offered = ZEROCOPY in (scope.get("extensions") or {})
+    final_own = spec.get("final", "op") == "empty-body" or not plan
+    fd = os.open(zc_path(int(spec["size"])), os.O_RDONLY)
+    try:
+        k = 0
+        for op in spec["ops"]:
+            if "seek" in op:
+                os.lseek(fd, int(op["seek"]), os.SEEK_SET)
+                continue
+            if "read" in op:
+                os.read(fd, int(op["read"]))
+                continue
+            kind, _, data = plan[k]
+            k += 1
+            more = final_own or k < len(plan)
+            if kind == "zc" and offered:
+                msg: Dict[str, Any] = {"type": ZEROCOPY, "file": fd, "more_body": more}
+                for key in ("offset", "count"):
+                    if op["zc"].get(key) is not None:
+                        msg[key] = int(op["zc"][key])
+                await send(msg)
+            else:
+                await send({"type": "http.response.body", "body": data, "more_body": more})
+                if kind == "zc" and op["zc"].get("offset") is None:
+                    os.lseek(fd, len(data), os.SEEK_CUR)  # what the server would have done to the position
+        if final_own:
+            await send({"type": "http.response.body", "body": b"", "more_body": False})
+    finally:
+        os.close(fd)
+
+
+class AsgiFileOpsResponse(A.Response):
+    """A response class of a foreign package: status / headers / cookies of baize's Response, body by file ops."""
+
+    def __init__(self, spec: Dict[str, Any], status_code: int = 200, headers: Optional[Dict[str, str]] = None) -> None:
+        super().__init__(status_code, headers)
+        self.spec = spec
+
+    async def __call__(self, scope: Any, receive: Any, send: Any) -> None:
+        await send({"type": "http.response.start", "status": self.status_code, "headers": self.list_headers(as_bytes=True)})
+        await _send_file_ops(self.spec, scope, send)
+
+
+class WsgiFileOpsResponse(W.Response):
+    def __init__(self, spec: Dict[str, Any], status_code: int = 200, headers: Optional[Dict[str, str]] = None) -> None:
+        super().__init__(status_code, headers)
+        self.spec = spec
+
+    def __call__(self, environ: Any, start_response: Any) -> Any:
+        start_response(f"{self.status_code} Status", self.list_headers(as_bytes=False))
+        return [data for _, _, data in file_ops_plan(self.spec)]
 
 
 class ViewError(ValueError):
@@ -148,6 +286,8 @@ def _xraw_wsgi(a: Dict[str, Any], built: Built) -> Any:
     def app(environ: Any, start_response: Any) -> Any:
         built.calls.append(("raw", None))
         start_response(status, list(headers))
+        if a.get("file_ops"):
+            return [data for _, _, data in file_ops_plan(a["file_ops"])]
         if a.get("returns", "list") == "list" and raises is None:
             return list(chunks)
 
@@ -178,6 +318,9 @@ def _xraw_asgi(a: Dict[str, Any], built: Built) -> Any:
         if "headers" in omit and not headers:
             del start["headers"]  # optional key, defaults to no headers
         await send(start)
+        if a.get("file_ops"):
+            await _send_file_ops(a["file_ops"], scope, send)
+            return
         if not chunks:
             if raises == "mid":
                 raise ProducerError("raw app failed mid-body")
@@ -220,6 +363,9 @@ def _xview(a: Dict[str, Any], side: str, built: Built) -> Any:
             raise HTTPException(status, dict(headers) if headers is not None else None, content)
         if a.get("raise_exc"):
             raise ViewError("view failed")
+        if a.get("file_ops"):
+            cls = WsgiFileOpsResponse if side == "wsgi" else AsgiFileOpsResponse
+            return cls(a["file_ops"], int(a.get("status", 200)), dict(a.get("headers", {})))
         return recipes.build_response(a["response"], side, log)
 
     if side == "wsgi":
